@@ -321,8 +321,72 @@ export function genRewrite(rng, params) {
   return [A("rewrite"), A(String(counter++)), p, [["entry.ts", tsOfProg(p)]], vals.map(encVal), q, [["entry.ts", src2]], script];
 }
 
+// ---------- C04: totality — erroneous / unsupported / malformed / multi-file projects ----------
+function pickSubterm(rng, p, f) { // replace one random closed subterm of an export by f(subterm)
+  let done = false;
+  const exps = p[2].map(([n, t]) => [n, mapTy(t, (x) => { if (!done && rng.chance(1, 4)) { done = true; return f(x); } return x; })]);
+  if (!done) exps[0] = [exps[0][0], f(exps[0][1])];
+  return [p[0], p[1], exps];
+}
+const MODELLED_ERRORS = ["missing-ref", "partial-nonobject", "pick-nonobject", "omit-nonobject", "required-nonobject", "symbol-kw", "argcount"];
+function injectModelled(rng, p, kind) {
+  switch (kind) {
+    case "missing-ref": return pickSubterm(rng, p, () => [A("ref"), "Missing" + rng.below(100)]);
+    case "partial-nonobject": return pickSubterm(rng, p, () => [A("bi"), "Partial", A(rng.pick(["string", "number", "boolean"]))]);
+    case "required-nonobject": return pickSubterm(rng, p, () => [A("bi"), "Required", [A("array"), A("string")]]);
+    case "pick-nonobject": return pickSubterm(rng, p, () => [A("bi"), "Pick", A("string"), [A("lit"), [A("s"), "a"]]]);
+    case "omit-nonobject": return pickSubterm(rng, p, () => [A("bi"), "Omit", [A("tuple"), [A("number")], A("none")], [A("lit"), [A("s"), "a"]]]);
+    case "symbol-kw": return pickSubterm(rng, p, () => A("symbol"));
+    case "argcount": { const d = p[1].length ? rng.pick(p[1]) : null; if (!d) return pickSubterm(rng, p, () => [A("ref"), "Missing0"]); return pickSubterm(rng, p, () => [A("ref"), d[1], ...Array.from({ length: d[2].length + 1 }, () => A("string"))]); }
+  }
+  return p;
+}
+const UNSUPPORTED_SNIPPETS = ["{ f(): void }", "unique symbol", "this", "[string?]", "typeof undefinedValue", 'import("./nofile").T', "{ get x(): number }", "new () => string", "{ [k: string]: number; [j: number]: number }",
+  "keyof Missing9", "Missing8[\"a\"]", "string extends infer U ? U : never", "{ readonly [K in keyof Missing7]: 1 }", "abstract new () => void", "asserts x is string", "`${Missing6}`", "Array", "Record<string>", "Map<string>", "Exclude<number, 1>",
+  "Set", "StringFormat<123>", "NumberFormat<\"unregisteredFmt\">", "[...string]", "[...string[], ...number[]]", "object[\"x\"]", "1n", "-1", "void[]", "never[]", "A.B.C", "typeof import(\"./x\")", "{ a: string }[\"b\"]"];
+function textMutate(rng, src) {
+  const i = rng.below(src.length + 1);
+  switch (rng.below(6)) {
+    case 0: return src.slice(0, i) + src.slice(i + 1 + rng.below(3));
+    case 1: return src.slice(0, i) + rng.pick(["{", "}", "<", ">", "(", ")", "[", "|", "&", ";", "\"", "`", "=", "?", ":", "é", "\n", "/*", "${"]) + src.slice(i);
+    case 2: { const m = [...src.matchAll(/\b(string|number|boolean|null|any)\b/g)]; if (!m.length) return src; const k = rng.pick(m); return src.slice(0, k.index) + rng.pick(UNSUPPORTED_SNIPPETS) + src.slice(k.index + k[0].length); }
+    case 3: return src.replace("parse.buildParsers", rng.pick(["parse.buildParsers", "buildParsers", "x.y.buildParsers", "parse.buildParsers<{}>();\nparse.buildParsers"]));
+    case 4: return rng.pick(["export default 1;\nexport default 2;\n", "enum E { A, B = \"x\" }\n", "declare const v: unique symbol;\n", "export * from \"./entry\";\n", "import X from \"./entry\";\n", "type Self = Self | string;\n", "interface I extends I {}\n"]) + src;
+    default: return src.slice(0, i) + src.slice(i).replace(/[A-Za-z]+/, (w) => w.split("").reverse().join(""));
+  }
+}
+function splitFiles(rng, p) { // move some declarations to other files with imports back (may be cyclic / missing)
+  const files = [["entry.ts", ""]];
+  const decls = p[1];
+  if (!decls.length) return null;
+  const moved = decls.filter(() => rng.chance(1, 2));
+  if (!moved.length) return null;
+  const style = rng.below(5);
+  const names = moved.map((d) => d[1]);
+  const importLine = style === 0 ? `import { ${names.join(", ")} } from "./lib";` : style === 1 ? `import type { ${names.join(", ")} } from "./lib";` : style === 2 ? `import { ${names.join(", ")} } from "./missingfile";` : style === 3 ? `import { ${names.map((n) => n + "x as " + n).join(", ")} } from "./lib";` : `import * as L from "./lib";\n${names.map((n) => `type ${n} = L.${n};`).join("\n")}`;
+  const kept = decls.filter((d) => !moved.includes(d));
+  const keptNames = kept.map((d) => d[1]);
+  // lib may need the kept declarations: import them back from entry (a cycle)
+  const libSrc = (keptNames.length && rng.chance(1, 2) ? `import { ${keptNames.join(", ")} } from "./entry";\n` : "") + moved.map((d) => "export " + tsOfDecl(d)).join("\n") + (rng.chance(1, 4) ? '\nexport * from "./entry";' : "") + "\n";
+  const entrySrc = importLine + "\n" + kept.map((d) => (rng.chance(1, 2) ? "export " : "") + tsOfDecl(d)).join("\n") + `\nparse.buildParsers<{ ${p[2].map(([n, t]) => `${n}: ${tsOf(t)}`).join(", ")} }>();\n`;
+  return [["entry.ts", entrySrc], ["lib.ts", libSrc]];
+}
+export function genTotal(rng, params) {
+  let p = genProg(rng);
+  const vals = genValues(rng, p, Number(params[0] || 6));
+  const r = rng.below(10);
+  let tied = true, files;
+  if (r < 3) { /* valid program */ }
+  else if (r < 6) { for (let i = 1 + rng.below(2); i > 0; i--) p = injectModelled(rng, p, rng.pick(MODELLED_ERRORS)); }
+  if (r < 6) files = [["entry.ts", tsOfProg(p)]];
+  else if (r < 8) { tied = false; let src = tsOfProg(p); for (let i = 1 + rng.below(3); i > 0; i--) src = textMutate(rng, src); files = [["entry.ts", src]]; }
+  else { tied = false; files = splitFiles(rng, p) || [["entry.ts", tsOfProg(p)]]; if (rng.chance(1, 3)) files = files.map(([n, s]) => [n, rng.chance(1, 2) ? textMutate(rng, s) : s]); }
+  return [A("total"), A(String(counter++)), tied ? p : A("none"), files, vals.map(encVal)];
+}
+
 let counter = 0;
 export function gen(rng, params, mode) {
+  if (mode === "prog-total") return genTotal(rng, params);
   if (mode === "prog-rewrite") return genRewrite(rng, params);
   if (mode === "prog-describe") {
     const p = genProg(rng);
@@ -367,6 +431,35 @@ export function makeRunner(rt_, mode, build) {
     return { reply: out, fail, h256, h32 };
   }
   return async function run(req, compiled, compiled2) {
+    if (head(req) === "total") {
+      const h = head(compiled);
+      const fail = [];
+      const files = req[3];
+      if (h === "js") {
+        // the export names requested in buildParsers (when the TsCore program is known) must all be built
+        let parsers = null;
+        try { parsers = (await loadEmitted(build, compiled[1])).buildParsers({ stringFormats: {}, numberFormats: {} }); } catch (e) { fail.push(A("c04.load")); }
+        if (parsers && Array.isArray(req[2])) for (const [name] of req[2][2]) if (!parsers[name]) fail.push(A("c04.missing-parser"));
+        if (parsers) for (const k of Object.keys(parsers)) { try { parsers[k].validate(1); parsers[k].hash256(); } catch (e) { fail.push(A("c04.parser-throws")); } }
+        return [[A("outcome"), A("ok")], fail.length ? [A("oracle"), A("fail"), ...fail] : [A("oracle"), A("ok")]];
+      }
+      if (h === "diags") {
+        if (compiled.length < 2) fail.push(A("c04.nodiag"));
+        for (const d of compiled.slice(1)) {
+          if (head(d) === "d-unknown") { if (!files.some(([n]) => n === d[1])) fail.push(A("c04.diag-file")); continue; }
+          const f = files.find(([n]) => n === d[1]);
+          if (!f) { fail.push(A("c04.diag-file")); continue; }
+          const len = Buffer.byteLength(f[1], "utf8");
+          const [lo, hi, l0, c0, l1, c1] = d.slice(2, 8).map((x) => Number(x.s));
+          const nl = f[1].split("\n").length;
+          if (!(lo >= 1 && lo <= hi && hi <= len + 1) && !(lo === 0 || hi === 0)) fail.push(A("c04.diag-range"));
+          if (!(l0 >= 1 && l0 <= nl && l1 >= l0 && l1 <= nl && (l1 > l0 || c1 >= c0))) fail.push(A("c04.diag-linecol"));
+        }
+        return [[A("outcome"), A("diags")], fail.length ? [A("oracle"), A("fail"), ...fail] : [A("oracle"), A("ok")]];
+      }
+      if (h === "parse-fail") return [[A("outcome"), A("diags")], [A("oracle"), A("ok")]];   // entry does not parse: reported as "cannot find file" diagnostic by the real driver
+      return [[A("outcome"), A(h)], [A("oracle"), A("fail"), A("c04." + h)]];
+    }
     if (head(req) === "describe") {
       // stage 1 (compiled2 == null): print describe() of the single export
       // stage 2: evaluate generation 1 and generation 2 on the values
